@@ -126,17 +126,76 @@ def p_norm_contract(p_kind):
                ("line_at_x0", lift(st.slope) * st.x0 + st.b == st.y0)]
         return out
 
-    def hints_z(st):
-        return [("line_at_root", lift(st.slope) * st.z + st.b == 0)]
+    def hints_pow(st):
+        # A6 for the abstract power: for a >= 0 and e >= 0,  a^(e+1) == a * a^e  and  a^e >= 0   (instances at the segment's end ordinates)
+        if isinstance(st.g["p"], int):
+            return []
+        e = st.eng
+        pw = pow_uf()
+        pz = to_real(to_z3(st.g["p"]))
+        for y in (st.y0, st.y1):
+            a = to_real(abs(lift(y)).t)
+            e.axiom(z3.And(pw(a, pz + 1) == a * pw(a, pz), pw(a, pz) >= 0, pw(a, pz + 1) >= 0))
+        # monotonicity in the base for a positive exponent
+        a0, a1 = to_real(abs(lift(st.y0)).t), to_real(abs(lift(st.y1)).t)
+        e.axiom(z3.And(z3.Implies(a0 <= a1, pw(a0, pz + 1) <= pw(a1, pz + 1)), z3.Implies(a1 <= a0, pw(a1, pz + 1) <= pw(a0, pz + 1))))
+        return []
 
     return Contract(
         MOD, "_p_norm", make_args, requires=requires, ensures=ensures, definedness="P",
         loops={0: LoopContract("for l in", inv_outer, cls="P"),
                1: LoopContract("for [[x0, y0], [x1, y1]] in", inv_inner, cls="P")},
-        hints=[("b = y0 - slope * x0", hints)],
+        hints=[("b = y0 - slope * x0", hints), ("b = y0 - slope * x0", hints_pow)],
         variant="p=%s" % p_kind)
 
 
 def all_contracts(tier):
-    cs = [p_norm_contract(k) for k in (1, 2, 3, 4)]
+    cs = [p_norm_contract(k) for k in (1, 2, 3, 4, "int", "real")]
     return cs, {}
+
+
+# ----------------------------------------------------------------------------- entry points
+EMOD = "persim/landscapes/exact.py"
+
+
+def pnorm_summary(eng, pos, kw):
+    eng.ghost.setdefault("pnorm_calls", []).append(dict(kw, pos=pos))
+    return eng.fresh_real("pnorm_value")
+
+
+def exact_p_norm_contract(kind):
+    """kind: 'valid' (p >= 0), 'minus_one' (sup norm), 'negative' (rejected)"""
+    from pyvc.engine import Obj
+
+    def make_args(eng):
+        cls = eng.module(EMOD).lookup("PersLandscapeExact")
+        o = Obj(cls=cls)
+        cps, g = make_pairs(eng, "self")
+        eng.assume(g["nd"].t >= 1)
+        o.fields.update({"critical_pairs": cps, "hom_deg": 0, "dgms": [], "max_depth": g["nd"]})
+        if kind == "valid":
+            p = eng.fresh_real("p")
+            eng.assume(p.t >= 0)
+        elif kind == "negative":
+            p = eng.fresh_real("p")
+            eng.assume(z3.And(p.t < 0, p.t != -1))
+        else:
+            p = -1
+        g.update({"o": o, "p": p, "cps": cps})
+        return {"self": o, "p": p}, g
+
+    def raises(a):
+        return [("negative_p_rejected", "ValueError", kind == "negative")]
+
+    def ensures(a, res):
+        calls = a.eng.ghost.get("pnorm_calls", [])
+        out = [("landscape_untouched", a.g["o"].fields["critical_pairs"] is a.g["cps"], "P")]
+        if kind == "valid":
+            out.append(("delegates_to__p_norm_on_its_own_critical_pairs", len(calls) == 1 and calls[0].get("critical_pairs") is a.g["cps"] and calls[0].get("p") is a.g["p"], "P"))
+        return out
+    return Contract(EMOD, "PersLandscapeExact.p_norm", make_args, ensures=ensures, raises=raises, definedness="P", variant=kind)
+
+
+def all_contracts(tier):     # noqa: F811
+    cs = [p_norm_contract(k) for k in (1, 2, 3, 4, "int", "real")] + [exact_p_norm_contract(k) for k in ("valid", "negative")]
+    return cs, {(MOD, "_p_norm"): Contract(MOD, "_p_norm", None, summary=pnorm_summary)}
